@@ -72,18 +72,28 @@ def orders(case):
   sizes = case['sizes']
   backend = case.get('backend', 'jit')
   alg, c_ref, s_ref, h = algorithm('sgd', 'sgd', 0.125, 0.5, (2, 1, None, False, 0), backend)
-  pop = algos.population(sizes, case.get('seed', 0), typed_keys=bool(case.get('typed_keys')))
+  f64 = bool(case.get('f64'))   # only under the x64 configuration: float64 parameters and data, compared at 1e-10
+  pop = algos.population(sizes, case.get('seed', 0), typed_keys=bool(case.get('typed_keys')),
+                         data_fn=(lambda n, i, sd, dm: algos.client_data(n, i, sd, dm, np.float64)) if f64 else None)
   p0 = algos.nparams(algos.P0)
   perms = [case['order']] if 'order' in case else list(itertools.permutations(range(len(sizes))))
+  if f64:
+    perms = perms[:2]
   base = None
   for perm in perms:
     nc = dict(case, order=list(perm))
     cohort = [pop[i] for i in perm]
-    state = alg.init(algos.jparams())
+    state = alg.init(algos.jparams(dtype=np.float64 if f64 else np.float32))
     what = 'round'
     if case.get('abort_first') and algos.aborted_round(alg, state, cohort):
       what = 'retry after a round that aborted at its last client'
-    new_state, want_p, _ = check_round(alg, c_ref, s_ref, h, state, p0, s_ref.init(p0), cohort, what, nc)
+    tol = dict(rtol=1e-10, atol=1e-11) if f64 else {}
+    if f64:
+      require(all(np.asarray(v).dtype == np.float64 for v in state.params.values()), 'harness: x64 is not in effect')
+    new_state, want_p, _ = check_round(alg, c_ref, s_ref, h, state, p0, s_ref.init(p0), cohort, what, nc, **tol)
+    if f64:
+      require(all(np.asarray(v).dtype == np.float64 for v in new_state.params.values()), 'float64 server parameters came '
+              'back in another dtype', 'float64', [str(np.asarray(v).dtype) for v in new_state.params.values()], case=nc)
     got = {k: np.asarray(v, np.float64) for k, v in new_state.params.items()}
     if sum(sizes) == 0:
       for k in got:
@@ -162,6 +172,13 @@ TIMEOUTS = {'orders': 600, 'batching': 120, 'histories': 2400}
 # sub-spaces re-executed under other interpreter configurations (mc.core.CONFIGS): {configuration: {sub-space: stride}}
 # quick tier: every stride-th planned case, thorough tier: all planned cases
 CONFIG_PASSES = {'x64': {'orders': 6, 'batching': 8}, 'rbg': {'orders': 12}}
+
+
+def config_cases(cfg, sub, ctx):
+  if cfg == 'x64' and sub == 'orders':
+    return [{'sizes': p, 'seed': ctx.seed, 'backend': b, 'f64': True} for b in ('jit', 'pmap2')
+            for p in ([3, 5, 7, 0, 2], [2, 3], [0, 5])]
+  return []
 
 
 def plan(ctx):
